@@ -124,7 +124,7 @@ _reg(Tool("accumulate", "iter", (1, 1),
                               if "fn" in F else
                               a.accumulate(S[0], **_kw(initial=_opt(V, "initial")))),
           lambda S, F, P, V: _accumulate_ref(S[0], F.get("fn"), V),
-          optional_roles=(("fn", "derive"),), profiles=(I, N, 'grumpy-add', "lists", "acc", "aw-add")))
+          optional_roles=(("fn", "derive"),), profiles=(I, N, 'grumpy-add', "lists", "acc", "aw-add", "infinite")))
 _reg(Tool("batched", "iter", (1, 1),
           lambda S, F, P, V: a.batched(S[0], P["n"], strict=P["strict"]),
           lambda S, F, P, V: _batched_ref(S[0], P["n"], P["strict"]),
@@ -195,15 +195,15 @@ _reg(Tool("any", "agg", (1, 1),
 _reg(Tool("sum", "agg", (1, 1),
           lambda S, F, P, V: a.sum(S[0], *_positional_opt(V, "start")),
           lambda S, F, P, V: builtins.sum(S[0], *_positional_opt(V, "start")),
-          profiles=(I, N, "lists", "inexact", 'grumpy-add', "aw-add")))
+          profiles=(I, N, "lists", "inexact", 'grumpy-add', "aw-add", "infinite")))
 _reg(Tool("min", "agg", (1, 1),
           lambda S, F, P, V: a.min(S[0], **_kw(key=F.get("key", _ABSENT), default=_opt(V, "default"))),
           lambda S, F, P, V: builtins.min(S[0], **_kw(key=F.get("key", _ABSENT), default=_opt(V, "default"))),
-          optional_roles=(("key", "table"),), profiles=(I, N, "unorderable", 'grumpy-order', "ltonly", "partial")))
+          optional_roles=(("key", "table"),), profiles=(I, N, "unorderable", 'grumpy-order', "ltonly", "partial", "infinite")))
 _reg(Tool("max", "agg", (1, 1),
           lambda S, F, P, V: a.max(S[0], **_kw(key=F.get("key", _ABSENT), default=_opt(V, "default"))),
           lambda S, F, P, V: builtins.max(S[0], **_kw(key=F.get("key", _ABSENT), default=_opt(V, "default"))),
-          optional_roles=(("key", "table"),), profiles=(I, N, "unorderable", 'grumpy-order', "ltonly", "partial")))
+          optional_roles=(("key", "table"),), profiles=(I, N, "unorderable", 'grumpy-order', "ltonly", "partial", "infinite")))
 _reg(Tool("list", "agg", (0, 1),
           lambda S, F, P, V: a.list(*S[:1]),
           lambda S, F, P, V: builtins.list(*S[:1]), profiles=(I, N), streaming=False))
@@ -221,7 +221,7 @@ _reg(Tool("dict", "agg", (0, 1),
 _reg(Tool("sorted", "agg", (1, 1),
           lambda S, F, P, V: a.sorted(S[0], key=F.get("key"), reverse=P["reverse"]),
           lambda S, F, P, V: builtins.sorted(S[0], key=F.get("key"), reverse=P["reverse"]),
-          optional_roles=(("key", "table"),), profiles=(I, N, "unorderable", 'grumpy-order', "ltonly", "partial"),
+          optional_roles=(("key", "table"),), profiles=(I, N, "unorderable", 'grumpy-order', "ltonly", "partial", "infinite"),
           streaming=False))
 _reg(Tool("reduce", "agg", (1, 1),
           lambda S, F, P, V: a.reduce(F["fn"], S[0], *_positional_opt(V, "initial")),
